@@ -249,6 +249,42 @@ def overdrawn_input():
     return {"shape": "overdrawn", "exchanges": ["Coinbase", "Kraken"], "holders": ["Bob"], "off": 0, "assets": [a]}
 
 
+# ----------------------------------------------------------------------------- composed model (Model/RunCompose.v, driver cmd 95)
+def composable(job):
+    """runs whose input has no taxable event (acquisitions only, default options of rp2_us): the rinput the report MODELS
+    receive needs no matcher output, so the composed model (all modelled generators on one input) can be run on the very
+    history of the CLI run"""
+    o = job["opts"]
+    if job["country"] != "us" or job.get("sched") or job.get("cfg_assets") or job.get("missing_sheet"):
+        return False
+    if any(o.get(k) for k in ("method", "lang", "from", "to", "asset", "neg", "plugin", "prefix")):
+        return False
+    return all(not a["outs"] and not a["intras"] and all(r["type"] == "BUY" for r in a["ins"]) for a in job["inp"]["assets"])
+
+
+def composed_line(job):
+    from harness import hist, l5, l5full
+    inp = job["inp"]
+    assets = [{"asset": a["asset"], "ins": [dict(r, row=3 + k) for k, r in enumerate(a["ins"])], "outs": [], "intras": []}
+              for a in inp["assets"]]
+    multi = {"country": "us", "lang": "en", "exchanges": inp["exchanges"], "holders": inp["holders"], "sched": [(1970, "fifo")],
+             "from": None, "to": None, "allow_neg": False, "assets": assets}
+    return hist.line(95, [0, 0] + l5.encode_rinput(multi, {a["asset"]: [] for a in assets}) + l5full.encode_env(multi))
+
+
+def decode_composed(res):
+    """-> (exit status, files) the composed model predicts: generators in discovery order, stop at the first failure"""
+    if not res or res[0] != 0:
+        return None
+    files = []
+    for k in range(res[1]):
+        g, ok, _info = res[2 + 3 * k: 5 + 3 * k]
+        if ok != 1:
+            return 1, files
+        files.append("fifo_" + GEN_FILES[g])
+    return 0, files
+
+
 # ----------------------------------------------------------------------------- judging
 def expected_files(job, mm):
     """what the property text demands: one report per configured generator, named prefix + method|mixed + _ + report"""
@@ -308,6 +344,18 @@ def run(tier, build, replay=None):
     else:
         jobs, results = l6.matrix_runs(tier, lambda: corpus_jobs() + build_jobs(tier, mm))
     model = [decode_run(r) for r in core.run_model([model_line(j) for j in jobs])]
+    comp_idx = [k for k, j in enumerate(jobs) if composable(j)]
+    comp_raw = core.run_model([composed_line(jobs[k]) for k in comp_idx]) if comp_idx else []
+    comp_mism = 0
+    for k, raw in zip(comp_idx, comp_raw):
+        pred = decode_composed(raw)
+        res = results[k]
+        got = sorted(fn for fn, f in res["files"].items() if not f.get("junk") and not f.get("stale"))
+        if pred is None or (res["rc"], got) != (pred[0], sorted(pred[1])):
+            comp_mism += 1
+            out.violation(f"composed report models and implementation disagree on {describe(jobs[k])}: implementation exit {res['rc']} "
+                          f"files {got}; modelled generators (cmd 95) give {pred} (raw {raw[:40]})",
+                          jobs[k], tags={"correspondence"}, found_input=False)
     failing, nontrivial, mism = 0, set(), 0
     dist = {}
     for job, res, (mrc, mfiles) in zip(jobs, results, model):
@@ -356,15 +404,23 @@ def run(tier, build, replay=None):
         "samples": [{"cmd": describe(j), "exit": r["rc"], "files": sorted(r["files"])} for j, r in list(zip(jobs, results))[:3]],
         "traces_validated_against_impl": len(jobs),
         "correspondence_mismatches": mism,
+        "composed_model_runs": len(comp_idx), "composed_model_mismatches": comp_mism,
         "supported_runs": sup, "supported_runs_failing": failing,
         "matrix": {c: {"methods": mm[c]["methods"], "languages": mm[c]["langs"], "default_language": mm[c]["default_lang"]} for c in l6.COUNTRIES},
         "case_distribution": dist, "stale_known_findings": stale,
     })
     out.assumptions = [
-        "a generator is modelled as 'succeeds unless a known failure condition holds' (template missing, jp from+to, KeyError/IndexError "
-        "conditions of findings F2/F4/F10/F12); the report writers' internals are the subject of C13-C15, C19, C20",
-        "the input facts the model is given (taxable types in the window, hidden summary year, holders with balance, negative balance) are "
-        "computed by the harness from the generated history",
+        "MainRun (the model the CLI matrix is compared with) treats a generator as 'succeeds unless a known failure condition holds'; "
+        "Properties/C16.v (composition) proves that on the facts computed from the rinput this predicate agrees with the four executable "
+        "report models (C16_generator_outcome_of_models / _iff; full report: converse only by the 22-holder witness) and that every "
+        "configured report is produced under reports_ok_hyps (C16_reports_all_produced, C16_run_total_of_models)",
+        "still assumed there: ComputedData exists for every asset (characterised stage by stage in C06/C08/C10, not composed); "
+        "reports_side_hyps = template large enough for the input-independent cells, open-positions catalogue/template for the language, "
+        "13-decimal comparisons defined (sizes), every listed asset has a positive balance (C07 reconciliation; F8 breaks it), "
+        "tax-report rows constructible (mk_items), single-entry schedule keyed 1970 in the open-positions MODEL (stricter than the code)",
+        "the input facts MainRun is given in the CLI correspondence (taxable types in the window, hidden summary year, holders with balance, "
+        "negative balance) are computed by the harness from the generated history; the composed model (cmd 95) is run on the CLI's own "
+        "history only for runs without taxable events (holders-N jobs)",
         "generated inputs use one UTC offset per input and pairwise distinct timestamps (mixed offsets: F9, other properties)",
     ]
     return out.finish(proofs, build)
